@@ -23,6 +23,8 @@ enum Drw {
     Img(ImgCase),
     Text(TextCase),
     Whitespace { font: String, width: u32, bg: bool, underline: u8, strike: u8 },
+    /// text in a synthetic font with character spacing: (cw, ch, spacing), string, index into deco16()
+    CustomText { font: (u32, u32, u32), text: String, deco: u8 },
     Pixel { at: P2 },
     PixelIter { n: u32 },
 }
@@ -196,6 +198,19 @@ fn check(case: &Case, obs: &mut Obs) {
                 run_drawable(&tc.build::<TC>(), case.adapter, obs)
             }
         }
+        Drw::CustomText { font, text, deco } => {
+            obs.class("text-in-font-with-spacing");
+            let (tc, bg, ul, st) = deco16()[*deco as usize];
+            with_custom_font(font.0, font.1, font.2, 3, |f| {
+                if case.adapter == 4 {
+                    let t = embedded_graphics::text::Text::new(text, Point::new(1, 5), char_style::<Rgb888>(f, tc, bg, ul, st));
+                    run_drawable_conv(&t, obs)
+                } else {
+                    let t = embedded_graphics::text::Text::new(text, Point::new(1, 5), char_style::<TC>(f, tc, bg, ul, st));
+                    run_drawable(&t, case.adapter, obs)
+                }
+            })
+        }
         Drw::Whitespace { font, width, bg, underline, strike } => {
             obs.class("draw_whitespace");
             let f = font_by_name(font).unwrap();
@@ -249,15 +264,34 @@ fn drawables(tier: Tier) -> Vec<Drw> {
         // every triangle of a small grid (all scanline shapes)
         shapes.extend(tri_grid(3, 3, -3, -2));
     }
-    let stys = styles(tier.pick(3, 5));
+    let mut stys = styles(tier.pick(3, 5));
+    for w in [6u32, 9] {
+        for al in 0..3u8 {
+            stys.push(Sty { fill: false, stroke: true, w, al });
+            stys.push(Sty { fill: true, stroke: true, w, al });
+        }
+    }
     for s in &shapes {
         for st in &stys {
             v.push(Drw::Prim { shape: s.clone(), sty: *st, dotted: false });
         }
     }
-    for (w, h) in [(12, 9), (3, 3), (1, 7), (0, 4), (9, 2)] {
-        for st in &stys {
-            v.push(Drw::Prim { shape: Shape::Rect { x, y, w, h }, sty: *st, dotted: true });
+    // dotted rectangles: small and large dots (stroke widths up to 9), low / tall / degenerate
+    for (w, h) in [(12, 9), (3, 3), (1, 7), (0, 4), (9, 2), (12, 28), (30, 30), (41, 17), (8, 8), (5, 40)] {
+        for sw in 1..=9u32 {
+            for al in 0..3u8 {
+                for fill in [false, true] {
+                    v.push(Drw::Prim { shape: Shape::Rect { x, y, w, h }, sty: Sty { fill, stroke: true, w: sw, al }, dotted: true });
+                }
+            }
+        }
+    }
+    // text in fonts with character spacing (gap fills between characters)
+    for font in [(5u32, 7u32, 1u32), (3, 2, 2), (6, 9, 4)] {
+        for text in ["AB", "a", "abc\nde", "a b\n\nc"] {
+            for deco in 0..16u8 {
+                v.push(Drw::CustomText { font, text: text.replace("\\n", "\n"), deco });
+            }
         }
     }
     for bpp in [1u8, 8, 16, 24] {
@@ -339,7 +373,7 @@ fn main() {
         assumptions: &["one fault per execution (a second one is unreachable if the property holds, and 'no further call' is itself checked)", "bounded to the listed drawables and adapter stacks"],
         parts: |_| vec![PartSpec::new("all", "verif"), PartSpec::new("catalogue", "verif")],
         run_part,
-        required_classes: |_| vec!["adapter-none", "adapter-clipped", "adapter-translated", "adapter-cropped", "adapter-color_converted-over-clipped", "adapter-nested-3", "rect", "circle", "ellipse", "rrect", "triangle", "line", "arc", "sector", "polyline", "dotted-rectangle", "image", "sub-image", "text", "draw_whitespace", "pixel", "pixel-iterator", "three-or-more-calls", "native-fill_contiguous", "native-fill_solid", "draw_iter"],
+        required_classes: |_| vec!["adapter-none", "adapter-clipped", "adapter-translated", "adapter-cropped", "adapter-color_converted-over-clipped", "adapter-nested-3", "rect", "circle", "ellipse", "rrect", "triangle", "line", "arc", "sector", "polyline", "dotted-rectangle", "image", "sub-image", "text", "text-in-font-with-spacing", "draw_whitespace", "pixel", "pixel-iterator", "three-or-more-calls", "native-fill_contiguous", "native-fill_solid", "draw_iter"],
         crash_is_verdict: false,
     })
 }
